@@ -1,12 +1,20 @@
 /-
   C02 — Playing a move yields exactly the successor position; boards stay consistent.
-  FULL STATEMENT and the layers proved so far.
+  FULL STATEMENT (`MakeMoveRefines`) and its proof (`make_move_refines`), plus the history corollaries.
+
+  Proof layers:
+    Lemmas/Abs.lean           bitboards <-> mailbox (`absBoard`), `addPiece` / `removePiece`, `Rep`
+    Lemmas/SpecValid.lean     `valid` read propositionally (`ValidPos`), congruence on the 64 squares
+    Lemmas/PlaySpec.lean      mailbox level: `PlayFacts`, `ValidPos.play` (a legal move keeps validity),
+                              castling rights by piece type = by squares (`rights_eq`)
+    Lemmas/MakeMoveSteps.lean `changeCastlingRights` and the five piece shuffles as `Rep` transformers
 -/
 import Flounder.Model.MakeMove
 import Flounder.Spec.Chess
+import Flounder.Lemmas.MakeMoveSteps
 
 namespace Flounder.Props.C02
-open Flounder
+open Flounder Flounder.Spec
 
 /-- FULL STATEMENT (target): on a valid board every legal move is played without panic and the result
     abstracts to the successor prescribed by the rules; validity (hence consistency, one king each) is
@@ -19,8 +27,331 @@ def MakeMoveRefines : Prop :=
       (Spec.abs b').castle = (Spec.play (Spec.abs b) m).castle ∧
       (Spec.abs b').ep = (Spec.play (Spec.abs b) m).ep ∧ Spec.valid b' = true
 
-/-- the start position is the one in the source (non-vacuity of the quantifier is shown per run by the
-    correspondence: thousands of valid boards with every legal move played). -/
-theorem startpos_side : Board.startpos.active = .white ∧ Board.startpos.ep = none := ⟨rfl, rfl⟩
+/-! ### the en-passant square -/
+
+theorem play_ep_eq (p : Pos) (m : Move) :
+    (play p m).ep = if (p.board m.src == some (p.turn, Piece.pawn) && absDiff m.src m.dst == 16) = true
+      then some (forward p.turn m.src) else none := rfl
+
+theorem ep_nonquiet {p : Pos} {m : Move} {pc : Piece} (hf : PlayFacts p m pc) (hk : m.kind ≠ .quiet) :
+    (play p m).ep = none := by
+  rw [play_ep_eq]
+  split
+  · rename_i hcond
+    simp only [Bool.and_eq_true, beq_iff_eq] at hcond
+    obtain ⟨h1, h2⟩ := hcond
+    rw [hf.src] at h1
+    have hpc : pc = .pawn := by cases h1; rfl
+    exact absurd (hf.dbl hpc h2).1 hk
+  · rfl
+
+theorem ep_quiet {p : Pos} {m : Move} {pc : Piece} (hf : PlayFacts p m pc) (hk : m.kind = .quiet) :
+    (if ((((m.src : Int) + (match p.turn with | .white => 16 | .black => -16) == (m.dst : Int)) &&
+          m.piece == .pawn) = true)
+      then some ((m.src : Int) + (match p.turn with | .white => 8 | .black => -8)).toNat else none) =
+    (play p m).ep := by
+  rw [play_ep_eq, hf.src]
+  have hmp : m.piece = pc := hf.piece (Or.inl hk)
+  rw [hmp]
+  by_cases hpc : pc = .pawn
+  · subst hpc
+    by_cases hdiff : absDiff m.src m.dst = 16
+    · obtain ⟨_, hrank, hdst, _⟩ := hf.dbl rfl hdiff
+      have hs := hf.hs
+      revert hrank hdst
+      unfold forward rank pawnHomeRank
+      cases p.turn <;> simp only [] <;> intro hrank hdst
+      · rw [if_pos (by simp; omega), if_pos (by simp [hdiff])]
+        congr 1
+      · rw [if_pos (by simp; omega), if_pos (by simp [hdiff])]
+        congr 1; omega
+    · rw [if_neg, if_neg]
+      · simp [hdiff]
+      · revert hdiff
+        unfold absDiff
+        cases p.turn <;> simp <;> split <;> omega
+  · rw [if_neg, if_neg]
+    · simp [hpc]
+    · simp [hpc]
+
+/-! ### the engine's `makeMove` against the mailbox -/
+
+theorem Rep.withActive {b : Board} {f : Nat → Option Man} (h : Rep b f) (a : Color) :
+    Rep { b with active := a } f := ⟨h.cons, h.abs⟩
+
+theorem isDoublePawnPush_eq (b : Board) (m : Move) :
+    b.isDoublePawnPush m = (((m.src : Int) + (match b.active with | .white => 16 | .black => -16) == (m.dst : Int)) &&
+      m.piece == .pawn) := rfl
+
+/-- on a consistent board satisfying the mailbox clauses, a move with `PlayFacts` is executed without panic
+    and the result represents the successor mailbox, with the rules' turn, castling rights and ep square. -/
+theorem makeMove_rep {b : Board} {m : Move} {pc : Piece} (hc : consistent b = true)
+    (hvp : ValidPos (abs b)) (hf : PlayFacts (abs b) m pc) :
+    ∃ b', b.makeMove m = some b' ∧ Rep b' (playBoard (abs b) m) ∧ b'.active = b.active.other ∧
+      b'.castle = (play (abs b) m).castle ∧ b'.ep = (play (abs b) m).ep ∧
+      b'.halfmove = b.halfmove ∧ b'.fullmove = b.fullmove := by
+  have hsd := hf.src_ne_dst
+  have hs := hf.hs
+  have hd := hf.hd
+  have hsrc : absBoard b m.src = some (b.active, pc) := hf.src
+  -- castling-rights step
+  obtain ⟨cs, hccr, hcs⟩ := ccr_spec { b with ep := none } m ((absBoard b m.dst).map (·.2))
+    (getPieceAt_eq (b := { b with ep := none }) hc hd)
+    (by
+      intro hk h
+      have := hf.dstFull hk
+      change absBoard b m.dst ≠ none at this
+      cases hb : absBoard b m.dst with
+      | none => exact this hb
+      | some x => rw [hb] at h; cases h)
+  have hcs' : cs = (play (abs b) m).castle := by
+    apply castle_ext
+    intro col ks
+    rw [hcs, play_castle_hasRight]
+    exact rights_eq hvp hf _ rfl col ks
+  unfold Board.makeMove
+  simp only [hccr]
+  have hrep1 : Rep (Board.withCastle { b with ep := none } cs) (absBoard b) := ⟨hc, fun _ _ => rfl⟩
+  generalize hb1 : Board.withCastle { b with ep := none } cs = b1 at hrep1 ⊢
+  have a1 : b1.active = b.active := by rw [← hb1]; rfl
+  have a2 : b1.castle = cs := by rw [← hb1]; rfl
+  have a3 : b1.ep = none := by rw [← hb1]; rfl
+  have a4 : b1.halfmove = b.halfmove := by rw [← hb1]; rfl
+  have a5 : b1.fullmove = b.fullmove := by rw [← hb1]; rfl
+  clear hb1 hccr hcs
+  cases hk : m.kind
+  · -- quiet
+    have hmp : m.piece = pc := hf.piece (Or.inl hk)
+    obtain ⟨r, e1, e2, e3⟩ := makeQuiet_rep hrep1 hs hd hsd (by rw [a1, hmp]; exact hsrc) (hf.dstEmpty (Or.inl hk))
+    have fr := makeQuiet_frame b1 m
+    refine ⟨_, rfl, (Rep.withActive r _).congr ?_, by simp only [e1, a1], by simp only [e2, a2, hcs'], ?_,
+      fr.2.1.trans a4, fr.2.2.trans a5⟩
+    · intro t _
+      rw [playBoard_eq]
+      simp only [hk, reduceCtorEq, false_and, if_false, a1]
+      rfl
+    · simp only [e3, a3]
+      rw [← ep_quiet hf hk, isDoublePawnPush_eq, a1]
+      rfl
+  · -- capture
+    have hmp : m.piece = pc := hf.piece (Or.inr hk)
+    have hq : ∃ q, absBoard b m.dst = some (b.active.other, q) := by
+      rcases hf.dst with h | ⟨q, h, _⟩
+      · exact absurd h (hf.dstFull hk)
+      · exact ⟨q, h⟩
+    obtain ⟨q, hq⟩ := hq
+    obtain ⟨b2, hb2, r, e1, e2, e3⟩ := makeCapture_rep hrep1 hs hd hsd (by rw [a1, hmp]; exact hsrc)
+      (q := q) (by rw [a1]; exact hq)
+    have fr := makeCapture_frame b1 m hb2
+    refine ⟨{ b2 with active := b2.active.other }, by simp only [hb2]; rfl, (Rep.withActive r _).congr ?_, by simp only [e1, a1],
+      by simp only [e2, a2, hcs'], ?_, fr.2.1.trans a4, fr.2.2.trans a5⟩
+    · intro t _
+      rw [playBoard_eq]
+      simp only [hk, reduceCtorEq, false_and, if_false, a1]
+      rfl
+    · simp only [e3, a3]
+      exact (ep_nonquiet hf (by rw [hk]; decide)).symm
+  · -- en passant
+    obtain ⟨hpc, hmp⟩ := hf.pieceEp hk
+    obtain ⟨hcq, hcap⟩ := hf.epCap hk
+    subst hpc
+    obtain ⟨r, e1, e2, e3⟩ := makeEnPassant_rep hrep1 hs hd (by rw [a1]; exact hcq) (by rw [a1]; exact hsrc)
+      (hf.dstEmpty (Or.inr (Or.inl hk))) (by rw [a1]; exact hcap)
+    have fr := makeEnPassant_frame b1 m
+    refine ⟨_, rfl, (Rep.withActive r _).congr ?_, by simp only [e1, a1], by simp only [e2, a2, hcs'], ?_,
+      fr.2.1.trans a4, fr.2.2.trans a5⟩
+    · intro t _
+      rw [playBoard_eq]
+      simp only [hk, reduceCtorEq, false_and, true_and, if_false, a1, hmp]
+      rfl
+    · simp only [e3, a3]
+      exact (ep_nonquiet hf (by rw [hk]; decide)).symm
+  · -- castle
+    obtain ⟨hpc, hmp⟩ := hf.pieceCastle hk
+    obtain ⟨c1, c2, c3, c4⟩ := hf.castle hk
+    subst hpc
+    obtain ⟨r, e1, e2, e3⟩ := makeCastle_rep hrep1 (m := m) (by rw [a1]; exact c1) (by rw [a1]; exact c2)
+      (by rw [a1]; exact hsrc) (hf.dstEmpty (Or.inr (Or.inr hk))) (by rw [a1]; exact c3) c4
+    have fr := makeCastle_frame b1 m
+    refine ⟨_, rfl, (Rep.withActive r _).congr ?_, by simp only [e1, a1], by simp only [e2, a2, hcs'], ?_,
+      fr.2.1.trans a4, fr.2.2.trans a5⟩
+    · intro t _
+      rw [playBoard_eq]
+      simp only [hk, reduceCtorEq, false_and, true_and, if_false, a1, hmp]
+      rfl
+    · simp only [e3, a3]
+      exact (ep_nonquiet hf (by rw [hk]; decide)).symm
+  · -- promotion
+    obtain ⟨hpc, _, _⟩ := hf.piecePromo hk
+    subst hpc
+    have hdst : absBoard b m.dst = none ∨ ∃ q, absBoard b m.dst = some (b1.active.other, q) := by
+      rcases hf.dst with h | ⟨q, h, _⟩
+      · exact Or.inl h
+      · exact Or.inr ⟨q, by rw [a1]; exact h⟩
+    obtain ⟨r, e1, e2, e3⟩ := makePromotion_rep hrep1 hs hd hsd (by rw [a1]; exact hsrc) hdst
+    have fr := makePromotion_frame b1 m
+    refine ⟨_, rfl, (Rep.withActive r _).congr ?_, by simp only [e1, a1], by simp only [e2, a2, hcs'], ?_,
+      fr.2.1.trans a4, fr.2.2.trans a5⟩
+    · intro t _
+      rw [playBoard_eq]
+      simp only [hk, reduceCtorEq, false_and, if_false, a1]
+      rfl
+    · simp only [e3, a3]
+      exact (ep_nonquiet hf (by rw [hk]; decide)).symm
+
+/-! ### the refinement theorem -/
+
+/-- **C02**: `make_move` on a valid board, given a legal move, never panics, yields exactly the successor
+    position of the rules (placement on all 64 squares, side to move, castling rights, en-passant square),
+    and the result is again a valid board. -/
+theorem make_move_refines : MakeMoveRefines := by
+  intro b m hv hl
+  obtain ⟨hc, hvp⟩ := (valid_iff b).1 hv
+  have hps : pseudo (abs b) m = true := by
+    unfold legal at hl
+    simp only [Bool.and_eq_true] at hl
+    exact hl.1
+  obtain ⟨pc, hf⟩ := playFacts hvp hps
+  have hvp' : ValidPos (play (abs b) m) := hvp.play hl
+  obtain ⟨b', hmk, hrep, hact, hcas, hep, _, _⟩ := makeMove_rep hc hvp hf
+  refine ⟨b', hmk, hrep.abs, hact, hcas, hep, ?_⟩
+  rw [valid_iff]
+  refine ⟨hrep.cons, hvp'.congr ?_ hact.symm hcas.symm hep.symm⟩
+  intro s hs
+  exact (hrep.abs s hs).symm
+
+/-! ### corollaries -/
+
+/-- the side to move always flips and the counters are never touched (no validity needed). -/
+theorem make_move_flips_side (b b' : Board) (m : Move) (h : b.makeMove m = some b') :
+    b'.active = b.active.other ∧ b'.halfmove = b.halfmove ∧ b'.fullmove = b.fullmove := by
+  unfold Board.makeMove at h
+  simp only [] at h
+  split at h
+  · cases h
+  · rename_i b1 hb1
+    obtain ⟨f1, _⟩ := ccr_frame _ m hb1
+    have key : ∀ b2, SameFrame b1 b2 → some { b2 with active := b2.active.other } = some b' →
+        b'.active = b.active.other ∧ b'.halfmove = b.halfmove ∧ b'.fullmove = b.fullmove := by
+      intro b2 f2 e
+      cases e
+      have f := f1.trans f2
+      exact ⟨by show b2.active.other = _; rw [f.1], f.2.1, f.2.2⟩
+    cases hk : m.kind <;> simp only [hk] at h
+    · exact key _ (makeQuiet_frame b1 m) h
+    · cases hc : b1.makeCapture m with
+      | none => rw [hc] at h; cases h
+      | some b2 => rw [hc] at h; exact key _ (makeCapture_frame b1 m hc) h
+    · exact key _ (makeEnPassant_frame b1 m) h
+    · exact key _ (makeCastle_frame b1 m) h
+    · exact key _ (makePromotion_frame b1 m) h
+
+/-- `ms` is a sequence of moves each legal (by the rules) in the position the engine has reached so far. -/
+inductive LegalSeqInd : Board → List Move → Prop where
+  | nil (b : Board) : LegalSeqInd b []
+  | cons {b b' : Board} {m : Move} {ms : List Move} :
+      Spec.legal (Spec.abs b) m = true → b.makeMove m = some b' → LegalSeqInd b' ms → LegalSeqInd b (m :: ms)
+
+/-- play a list of moves with the engine; `none` as soon as one `make_move` panics. -/
+def playAll : Board → List Move → Option Board
+  | b, [] => some b
+  | b, m :: ms => (b.makeMove m).bind fun b' => playAll b' ms
+
+/-- every move of `ms` is legal in the position reached by playing its predecessors with the engine
+    (the engine's own successor is used, so nothing is assumed about it). -/
+def LegalSeq : Board → List Move → Prop
+  | _, [] => True
+  | b, m :: ms => Spec.legal (Spec.abs b) m = true ∧ ∀ b', b.makeMove m = some b' → LegalSeq b' ms
+
+/-- **history**: from a valid board, any sequence of moves that are legal one after the other is played
+    without panic and ends in a valid board. -/
+theorem valid_history (ms : List Move) : ∀ (b : Board), Spec.valid b = true → LegalSeq b ms →
+    ∃ b', playAll b ms = some b' ∧ Spec.valid b' = true := by
+  induction ms with
+  | nil => intro b hv _; exact ⟨b, rfl, hv⟩
+  | cons m ms ih =>
+    intro b hv hl
+    obtain ⟨hm, hrest⟩ := hl
+    obtain ⟨b1, hmk, _, _, _, _, hv1⟩ := make_move_refines b m hv hm
+    obtain ⟨b', hp, hv'⟩ := ih b1 hv1 (hrest b1 hmk)
+    exact ⟨b', by simp only [playAll, hmk, Option.bind_some]; exact hp, hv'⟩
+
+/-- the inductive formulation (each step's `makeMove` result is part of the derivation): a `LegalSeqInd` from a valid board ends (without panic) in a valid board. -/
+theorem valid_history_inductive {b : Board} {ms : List Move} (hl : LegalSeqInd b ms) (hv : Spec.valid b = true) :
+    ∃ b', playAll b ms = some b' ∧ Spec.valid b' = true := by
+  induction hl with
+  | nil b => exact ⟨b, rfl, hv⟩
+  | cons hm hmk _ ih =>
+    obtain ⟨b1, hmk', _, _, _, _, hv1⟩ := make_move_refines _ _ hv hm
+    rw [hmk] at hmk'
+    cases hmk'
+    obtain ⟨b', hp, hv'⟩ := ih hv1
+    exact ⟨b', by simp only [playAll, hmk, Option.bind_some]; exact hp, hv'⟩
+
+/-- what `valid` says about occupancy, unfolded: every square holds at most one piece type and at most one
+    colour, a piece type iff a colour, and each side has exactly one king. -/
+theorem consistent_of_valid {b : Board} (hv : Spec.valid b = true) :
+    (∀ s, s < 64 →
+      (∀ p q, hasSq (b.bbPiece p) s = true → hasSq (b.bbPiece q) s = true → p = q) ∧
+      (∀ c d, hasSq (b.bbColor c) s = true → hasSq (b.bbColor d) s = true → c = d) ∧
+      ((∃ p, hasSq (b.bbPiece p) s = true) ↔ (∃ c, hasSq (b.bbColor c) s = true))) ∧
+    (∀ c, ∃ k, k < 64 ∧ hasSq (b.bb c .king) k = true ∧ ∀ s, s < 64 → hasSq (b.bb c .king) s = true → s = k) := by
+  obtain ⟨hc, hvp⟩ := (valid_iff b).1 hv
+  refine ⟨fun s hs => ?_, fun c => ?_⟩
+  · obtain ⟨h1, h2, h3⟩ := consistent_at hc hs
+    exact ⟨h1, h2, h3⟩
+  · obtain ⟨k, hk, hb, hu⟩ := hvp.king c
+    refine ⟨k, hk, (hasSq_bb hc hk).2 hb, fun s hs h => hu s hs ((hasSq_bb hc hs).1 h)⟩
+
+/-- **consistency along histories**: after any legal sequence from a valid board, every square holds at
+    most one piece of exactly one colour and each side has exactly one king. -/
+theorem consistent_history (ms : List Move) (b : Board) (hv : Spec.valid b = true) (hl : LegalSeq b ms) :
+    ∃ b', playAll b ms = some b' ∧
+      (∀ s, s < 64 →
+        (∀ p q, hasSq (b'.bbPiece p) s = true → hasSq (b'.bbPiece q) s = true → p = q) ∧
+        (∀ c d, hasSq (b'.bbColor c) s = true → hasSq (b'.bbColor d) s = true → c = d) ∧
+        ((∃ p, hasSq (b'.bbPiece p) s = true) ↔ (∃ c, hasSq (b'.bbColor c) s = true))) ∧
+      (∀ c, ∃ k, k < 64 ∧ hasSq (b'.bb c .king) k = true ∧
+        ∀ s, s < 64 → hasSq (b'.bb c .king) s = true → s = k) := by
+  obtain ⟨b', hp, hv'⟩ := valid_history ms b hv hl
+  exact ⟨b', hp, consistent_of_valid hv'⟩
+
+/-! ### non-vacuity: the hypotheses are satisfiable and the theorem says something concrete -/
+
+/-- the start position is a valid board. -/
+theorem startpos_valid : Spec.valid Board.startpos = true := by decide +kernel
+
+/-- 1. e4. -/
+def e2e4 : Move := ⟨12, 28, .pawn, .quiet⟩
+
+theorem e2e4_legal : Spec.legal (Spec.abs Board.startpos) e2e4 = true := by decide +kernel
+
+/-- the refinement theorem instantiated at 1. e4: no panic, valid result, ep square e3, Black to move,
+    the pawn stands on e4 and e2 is empty. -/
+example : ∃ b', Board.startpos.makeMove e2e4 = some b' ∧ Spec.valid b' = true ∧ b'.ep = some 20 ∧
+    b'.active = .black ∧ Spec.absBoard b' 28 = some (.white, .pawn) ∧ Spec.absBoard b' 12 = none := by
+  obtain ⟨b', h1, h2, h3, _, h5, h6⟩ := make_move_refines _ _ startpos_valid e2e4_legal
+  refine ⟨b', h1, h6, ?_, h3, ?_, ?_⟩
+  · exact h5.trans (by decide +kernel)
+  · exact (h2 28 (by decide)).trans (by decide +kernel)
+  · exact (h2 12 (by decide)).trans (by decide +kernel)
+
+example : LegalSeq Board.startpos [e2e4] := ⟨e2e4_legal, fun _ _ => trivial⟩
+
+/-- a castling position: the hypotheses of the theorem are satisfiable for `MoveType.castle`. -/
+def castleBoard : Board :=
+  { pawns := 0, knights := 0, bishops := 0, rooks := u64 (2^7), queens := 0, kings := u64 (2^4 + 2^60),
+    white := u64 (2^4 + 2^7), black := u64 (2^60), active := .white, castle := ⟨true, false, false, false⟩,
+    ep := none, halfmove := 0, fullmove := 1 }
+example : Spec.valid castleBoard = true := by decide +kernel
+example : Spec.legal (Spec.abs castleBoard) ⟨4, 6, .king, .castle⟩ = true := by decide +kernel
+
+/-- an en-passant position: the hypotheses are satisfiable for `MoveType.enPassant`. -/
+def epBoard : Board :=
+  { pawns := u64 (2^36 + 2^35), knights := 0, bishops := 0, rooks := 0, queens := 0, kings := u64 (2^4 + 2^60),
+    white := u64 (2^4 + 2^36), black := u64 (2^60 + 2^35), active := .white,
+    castle := ⟨false, false, false, false⟩, ep := some 43, halfmove := 0, fullmove := 1 }
+example : Spec.valid epBoard = true := by decide +kernel
+example : Spec.legal (Spec.abs epBoard) ⟨36, 43, .pawn, .enPassant⟩ = true := by decide +kernel
 
 end Flounder.Props.C02
